@@ -136,4 +136,51 @@ PROPS = {
                   "nothing, claimed+claimable <= paid in, claim twice yields nothing, claimable <= balances) on the sampled histories only"],
   "explanation": "model tied by differential run: per-step growth function (exported through a verif-tagged overlay file) and the whole pool state machine",
  },
+ "C20": {
+  "modules": ["OsmoVerif.Props.C20"],
+  "min_theorems": 40,
+  "fingerprints": ["Auth.*"],
+  "engines": [{"name": "auth", "kind": "app", "n": {"quick": 24000, "thorough": 240000}, "shards": {"quick": 4, "thorough": 16}}],
+  "rule": "histories through the real msg servers of tokenfactory, lockup, concentrated-liquidity and superfluid: factory denoms (incl. admin changes to users / "
+          "module accounts / the pool address and renouncing), locks (plain and superfluid-capable), CL positions (incl. transfers, a locked one); then every object x "
+          "every message type x senders {owner/admin, stranger, previous owner/admin, creator, the pool's own address, module accounts, gov, allow-listed non-owner, "
+          "malformed}; an evaluation is one message; non-trivial = not a message on an already renounced denom; distinct = distinct op lines",
+  "trusted_base": ["cosmos-sdk bank/auth keepers (ledger modelled as an association list)",
+                   "tx atomicity of baseapp (a message that errors is discarded): reproduced by the engine with a cache context",
+                   "sets the model cannot compute are inputs: well-formed bech32 strings, maccPerms module accounts, existing contracts / validators"],
+  "assumptions": ["the CL / lockup / superfluid math (liquidity, rewards, osmo-equivalents, lockup balances) is NOT modelled: only the authorisation decision, "
+                  "the order of the checks and the owner/admin record effect",
+                  "senders are non-empty strings (ValidateBasic / signer extraction): a renounced admin is the empty string and the Go guard is a plain string "
+                  "comparison (theorem renounced_empty_sender_witness)",
+                  "governance module account is an administrator of TransferPositions by design (position.go isGovModuleSender)"],
+  "explanation": "one theorem per message: a sender other than the current owner/admin gets (input state, err), for all states/arguments; renounced admin is dead, and "
+                 "stays renounced over any history; mint/burn/force-transfer never change a module-account balance; new denoms are always factory/<sender>/... and "
+                 "foreign namespaces are untouched (parse uniqueness proved); admin / lock-owner / position-owner records change only at the hands of the owner (or gov). "
+                 "Tied by T1 guard facts extracted from the Go source (guards_pinned, calls_pinned, order_pinned) and by the differential run through the real msg servers; "
+                 "independent oracle: unauthorised => error and no store write (all KV/transient stores of the cache context compared with the parent).",
+ },
+ "C06": {
+  "modules": ["OsmoVerif.Props.C06"],
+  "min_theorems": 26,
+  "fingerprints": [],
+  "engines": [{"name": "lockup", "kind": "app", "n": {"quick": 4000, "thorough": 40000}, "shards": {"quick": 4, "thorough": 16}}],
+  "rule": "histories of 25-95 transactions: 3 owners (+ a stranger), 3 denominations, 5 durations (two 1ns apart; many locks share a duration key), "
+          "monotone block times incl. no advance, +1ns, exactly on / 1ns before an end time; MsgLockTokens (create or add-to-existing), keeper "
+          "AddTokensToLockByID (also on unlocking locks), MsgExtendLockup, MsgBeginUnlocking (full, exact, partial -> split, too much, wrong denom, "
+          "wrong owner), MsgBeginUnlockingAll, UnlockMaturedLock, WithdrawMaturedLocks(0/1/2/1000), MsgSetRewardReceiverAddress, MsgForceUnlock "
+          "(whitelisted or not, full/partial), malformed messages; every call in a cache context written on success only; an evaluation is one op "
+          "line (transaction or query observation); VERIF_OPS counts transactions; after EVERY transaction the oracle recomputes from its own "
+          "shadow lock list: lock records, module balance, per-owner conservation, accumulation for every duration of the closure +-1, the whole "
+          "reference index decoded from the KV store, and 15 keeper queries for every owner x denom with sampled durations/times of the closure",
+  "trusted_base": ["cosmos-sdk bank keeper (modelled as a ledger)", "osmoutils/sumtree Increase/Decrease/SubsetAccumulation (modelled as a map; C16)",
+                   "byte encoding of the index keys is order-preserving and prefix-free (symbolic keys in the model; the engine decodes every real key)"],
+  "assumptions": ["synthetic locks (superfluid) and CL-share denominations are not modelled; locks with synthetic locks cannot begin unlocking and are left out of the generator",
+                  "theorems cover message-reachable states: one denomination per lock (MsgLockTokens.ValidateBasic); keeper CreateLock with several denominations "
+                  "and AddTokensToLockByID with a foreign denomination break index exactness (witness theorems, not reachable through messages)",
+                  "denominations none of which is a proper prefix of another (the *BeforeTimeDenom/ShorterDuration range iterators would include longer denominations; unused by any query)"],
+  "explanation": "invariant (module balance = sum of live locks; accumulation(d) = sum over ALL live locks, unlocking or not, with duration >= d; index entries = "
+                 "exactly addLockRefs' keys of every live lock) proved inductive over every operation and hence for every history; 13 keeper queries proved exact; "
+                 "per-owner conservation; balance can rise only by the owner's own matured locks (unmatured locked amount never decreases); failed op is a no-op; "
+                 "model tied to the real msg server/keeper by differential run",
+ },
 }
